@@ -22,6 +22,10 @@ def programs(t):
         lines.append('prog_convert<SInt<4, %s, %s>, %s, %s>("static_integer<4,i8>");' % (r, o, r, o))
         for (d, e) in ([(4, -2), (4, 1), (7, 0)] if not t else [(4, -2), (4, 1), (5, -5), (3, 0), (7, 0), (7, -3)]):
             lines.append('prog_convert<SNum<%d, %d, %s, %s>, %s, %s>("static_number<%d,%d,i8>");' % (d, e, r, o, r, o, d, e))
+    # the same conversions / built-in operand arithmetic with UNSIGNED Narrowest storage (negative built-in operands)
+    for (r, o) in ([('NEA', 'SAT'), ('NEG', 'THR')] if not t else [('NEA', 'SAT'), ('NEG', 'THR'), ('TIE', 'TRP'), ('NAT', 'THR')]):
+        lines.append('prog_convert<SInt<4, %s, %s, u8>, %s, %s>("static_integer<4,u8>");' % (r, o, r, o))
+        lines.append('prog_convert<SNum<4, -2, %s, %s, u8>, %s, %s>("static_number<4,-2,u8>");' % (r, o, r, o))
     # unsigned narrowest storage (results of - and unary - must still be exact: the intermediate types turn signed)
     for (r, o) in ([('NEA', 'SAT'), ('NEG', 'THR')] if not t else [('NEA', 'SAT'), ('NEG', 'THR'), ('TIE', 'TRP')]):
         lines.append('prog_machine<SInt<3, %s, %s, u8>, %s, %s>("static_integer<3,u8>");' % (r, o, r, o))
